@@ -56,3 +56,7 @@ package pbytes
 //@   requires pool.SI(DefaultPool.pool, i0, x0, s0)
 //@   modifies ghost pooltyp
 //@   ensures shard: pool.SI(DefaultPool.pool, i0, x0, s0)
+
+// no mutable package-level state (C12, and every property whose plan touches this package)
+//@ property C12
+//@ globals immutable
